@@ -674,6 +674,18 @@ func (l *lexer) lexRedir() action {
 		}
 	case IO_NUMBER:
 		goto Redir
+	case WORD:
+		// reserved word following a compound command
+		switch tok = l.tr(tok); tok {
+		case Elif:
+			return l.lexElif
+		case Then:
+			return l.lexThen
+		case Else:
+			return l.lexElse
+		case Do:
+			return l.lexDo
+		}
 	}
 	return l.lexToken(tok)
 Redir:
